@@ -33,13 +33,15 @@ pub struct Reg { pub fd: i32, pub token: Token, pub interest: Interest }
 pub struct Registry { pub table: UnsafeCell<[Option<Reg>; MAXREG]> }
 /// forced failure of the next OS call (0 = none): lets a harness explore EPERM/ENOMEM paths
 pub static mut FAIL_NEXT: i32 = 0;
+/// while non-zero every register/reregister/deregister fails with this errno and changes nothing
+pub static mut FAIL_ALL: i32 = 0;
 /// bitmask of table slots that fire on the next poll
 pub static mut FIRE: u8 = 0;
 impl Registry {
     #[allow(clippy::mut_from_ref)]
     pub fn raw(&self) -> &mut [Option<Reg>; MAXREG] { unsafe { &mut *self.table.get() } }
     fn find(&self, fd: i32) -> usize { let t = self.raw(); let mut i = 0; while i < MAXREG { if let Some(r) = &t[i] { if r.fd == fd { return i; } } i += 1; } MAXREG }
-    fn forced() -> Option<io::Error> { unsafe { if FAIL_NEXT != 0 { let e = FAIL_NEXT; FAIL_NEXT = 0; Some(io::Error::from_raw_os_error(e)) } else { None } } }
+    fn forced() -> Option<io::Error> { unsafe { if FAIL_ALL != 0 { return Some(io::Error::from_raw_os_error(FAIL_ALL)); } if FAIL_NEXT != 0 { let e = FAIL_NEXT; FAIL_NEXT = 0; Some(io::Error::from_raw_os_error(e)) } else { None } } }
     pub fn register(&self, s: &mut unix::SourceFd<'_>, token: Token, interest: Interest) -> io::Result<()> {
         if let Some(e) = Self::forced() { return Err(e); }
         if self.find(*s.0) < MAXREG { return Err(io::Error::from_raw_os_error(17)); }
